@@ -681,6 +681,11 @@ func VerifyLemma(p *Program, pkgPath string, lm *LemmaDecl) *UnitResult {
 		if len(tags) == 0 {
 			tags = lm.Tags
 		}
+		if lm.Assumed != "" {
+			// not proved: only the satisfiability of its hypotheses is checked; listed as an assumption wherever it is used
+			_ = env0.boolOf(en.Expr) // must at least be well-formed
+			continue
+		}
 		if lm.Induct == "" {
 			x.obligeBy(en.By, st, "lemma", en.Label, tags, env0.boolOf(en.Expr), en.Src, nil)
 			continue
@@ -704,6 +709,9 @@ func VerifyLemma(p *Program, pkgPath string, lm *LemmaDecl) *UnitResult {
 	x.obls = append(x.obls, cov)
 	res.Obls = x.obls
 	res.Assumes, res.AssumeLabels = x.assumes, x.assumeLabels
+	if lm.Assumed != "" {
+		x.assumedAt = append(x.assumedAt, fmt.Sprintf("lemma %s is ASSUMED, not proved: %s", lm.Name, lm.Assumed))
+	}
 	res.AssumedAt = x.assumedAt
 	return res
 }
@@ -781,7 +789,18 @@ func (x *Unit) useLemma(st *State, env *specEnv, call SExpr, node ast.Node) {
 	le.names = map[string]Term{}
 	le.noLocals = true
 	le.typePkg = lm.Pkg
+	anyInduct := false
 	for i, v := range lm.Vars {
+		if id, isId := sc.Args[i].(*SIdent); isId && id.Name == "any" {
+			// the conclusion is wanted for every value of the induction variable: the lemma holds for all i >= 0 and its
+			// hypotheses do not mention i, so the universally quantified instance is as sound as a single one
+			if v.Name != lm.Induct || lm.Induct == "" {
+				x.fail(node, "use %s: `any` is allowed only for the induction variable", lm.Name)
+			}
+			anyInduct = true
+			le.names[v.Name] = T("bv!any!"+lm.Name, SInt)
+			continue
+		}
 		t := env.eval(sc.Args[i])
 		if so, gt := safeResolve(le, v.Type); so != nil {
 			if so != t.Sort && so.Name != t.Sort.Name {
@@ -796,13 +815,22 @@ func (x *Unit) useLemma(st *State, env *specEnv, call SExpr, node ast.Node) {
 	for _, r := range lm.Requires {
 		x.oblige(st, "lemma.pre", lm.Name+"."+r.Label, x.tagsOr(lm.Tags), le.boolOf(r.Expr), r.Src, node)
 	}
-	if lm.Induct != "" {
+	if lm.Induct != "" && !anyInduct {
 		x.oblige(st, "lemma.pre", lm.Name+".induction_variable_nonnegative", x.tagsOr(lm.Tags), T("(>= "+le.names[lm.Induct].S+" 0)", SBool), lm.Induct+" >= 0", node)
 	}
 	for _, en := range lm.Ensures {
-		x.assumeAs(st, lm.Name, le.boolOf(en.Expr))
+		c := le.boolOf(en.Expr)
+		if anyInduct {
+			bv := le.names[lm.Induct].S
+			c = T("(forall (("+bv+" Int)) (=> (>= "+bv+" 0) "+c.S+"))", SBool)
+		}
+		x.assumeAs(st, lm.Name, c)
 	}
-	x.assumedAt = append(x.assumedAt, fmt.Sprintf("%s: lemma %s instantiated (proved as unit lemma.%s)", x.FU.Name, lm.Name, lm.Name))
+	if lm.Assumed != "" {
+		x.assumedAt = append(x.assumedAt, fmt.Sprintf("%s: lemma %s instantiated -- ASSUMED, not proved: %s", x.FU.Name, lm.Name, lm.Assumed))
+	} else {
+		x.assumedAt = append(x.assumedAt, fmt.Sprintf("%s: lemma %s instantiated (proved as unit lemma.%s)", x.FU.Name, lm.Name, lm.Name))
+	}
 }
 
 // monitorsAtReturn proves the type-invariant clauses marked each_return in the state of one return statement. Only
